@@ -430,7 +430,8 @@ Lemma issuance_commits_shape i : iss_ok i ->
 Proof.
   intros [A K]. unfold issuance_commits, has_issuance.
   destruct A as [EA|(x & EA & X)], K as [EK|(y & EK & Y)]; rewrite EA, EK; cbn [value_is_null andb negb fold_left fst snd obind app ipd ipc];
-    rewrite ?pedersen_unblinded_H by assumption; reflexivity.
+    rewrite ?(nz_eqb _ X), ?(nz_eqb _ Y); cbn [fold_left fst snd obind app];
+    rewrite ?pedersen_unblinded_H by assumption; cbn [obind app]; rewrite ?(nz_eqb _ Y); rewrite ?pedersen_unblinded_H by assumption; reflexivity.
 Qed.
 Lemma pedersen_unblinded_zero {E} g : @pedersen_unblinded E 0 g = OPanic PPedersenInfinity.
 Proof.
@@ -440,11 +441,12 @@ Qed.
 Lemma issuance_commits_zero i w : iss_field w i = VExp 0 -> amount_ok (is_amount (in_iss i)) \/ is_amount (in_iss i) = VExp 0 ->
   forall r, issuance_commits i <> OVal r.
 Proof.
+  (* since 3c38a91 an explicit zero amount is the error IssuanceTransactionInput (before: the library's assertion) *)
   intros F A r. unfold issuance_commits, has_issuance. destruct w; cbn [iss_field] in F.
-  - rewrite F. cbn [value_is_null andb negb fold_left fst snd obind]. rewrite pedersen_unblinded_zero. cbn [obind].
-    destruct (is_keys (in_iss i)); discriminate.
-  - rewrite F. destruct A as [[EA|(x & EA & X)]|EA]; rewrite EA; cbn [value_is_null andb negb fold_left fst snd obind];
-      rewrite ?pedersen_unblinded_zero, ?pedersen_unblinded_H by assumption; cbn [obind]; discriminate.
+  - rewrite F. cbn [value_is_null andb negb fold_left fst snd obind Z.eqb].
+    destruct (is_keys (in_iss i)) as [|y|c]; cbn [fold_left fst snd obind]; try discriminate; try (destruct (y =? 0); discriminate).
+  - rewrite F. destruct A as [[EA|(x & EA & X)]|EA]; rewrite EA; cbn [value_is_null andb negb fold_left fst snd obind Z.eqb];
+      rewrite ?(nz_eqb _ X); cbn [fold_left fst snd obind]; rewrite ?pedersen_unblinded_H by assumption; cbn [obind Z.eqb]; discriminate.
 Qed.
 
 Section IssuanceTamper.
